@@ -23,4 +23,6 @@ ASSUMPTIONS = common.ASSUMPTIONS_E1 + [
 def gen_case(seed, tier, index=0):
     if index % 4 == 3:
         return wf.gen_case_dag(seed, tier, index, restart_bias=True)
+    if index % 8 == 5:
+        return wf.gen_case_repeating_restart(seed, tier, index)
     return wf.gen_case_restart(seed, tier, index)
